@@ -717,7 +717,20 @@ def fold_audit(ctx, rep, fns, consequence="names inside it are never resolved", 
         return False
 
     n_fields = 0
+    folded_expr = folded
     for f in fns:
+        # an intermediate binding stands for its initialiser: `let args = fold.fold_exprs(call.args)?; .. args`
+        inits = {}
+        for n in walk(f["body"]):
+            if n.get("k") == "local" and n.get("init") is not None and n["pat"].get("k") == "p_ident":
+                inits.setdefault(n["pat"]["n"], []).append(n["init"])
+
+        def folded(expr, depth=0, _inits=inits):
+            if folded_expr(expr):
+                return True
+            if depth < 3 and expr.get("k") == "path" and expr["p"] in _inits:
+                return all(folded(i_, depth + 1) for i_ in _inits[expr["p"]])
+            return False
         # (a) nothing is dropped from a collection on its way through the folder
         for n in walk(f["body"]):
             if "drops" in parts and n.get("k") == "mcall" and n["m"] in DROPPING:
